@@ -100,8 +100,8 @@ TIMES = [0, 1, -1, 59, 60, 3599, 3600, 86399, 86400, -86400, -86401, 951782399, 
 def batches(rng, tier):
     thorough = tier == "thorough"
     ops = []
-    for l in lists(4):
-        for i in range(0, 6):
+    for l in lists(5 if thorough else 4):
+        for i in range(0, 7 if thorough else 6):
             ops.append(f"atopt {csv(l)} {i}")
         if len(l) <= 2 or l == [0, 1, 2, 0]:
             ops += [f"atopt {csv(l)} {i}" for i in HUGE]
@@ -184,7 +184,7 @@ def batches(rng, tier):
                      "file, directory (empty, populated, with trailing slash), missing, dangling/valid/double symlink, self-loop and 2-cycle (ELOOP), link to a "
                      "directory, fifo, name > NAME_MAX, path > PATH_MAX, component under a file (ENOTDIR), under a loop, missing parent, '', '.'")
     # ---- pure path helpers: all pathnames over {a . /}
-    n = 6 if thorough else 5
+    n = 7 if thorough else 5
     ws = words("a./", n)
     ops = [f"path {f} s:{w}" for w in ws for f in ("rmext", "ext", "extnodot", "stem", "normalize", "nsub", "tostring")]
     small = words("a./", 4 if thorough else 3)
